@@ -18,7 +18,7 @@ from typing import Any, Dict, List, Optional, Tuple
 from hypothesis import strategies as st
 
 from . import files, gen, model
-from .cli import COUNTRY_LANGS, COUNTRY_METHODS
+from .cli import COUNTRY_LANGS, COUNTRY_METHODS, COUNTRY_REPORTS
 
 NUMERIC_KEYS = ("price", "crypto_in", "crypto_fee", "fiat_in_no_fee", "fiat_in_with_fee", "fiat_fee", "out", "fee", "out_with_fee", "fiat_out_no_fee", "sent", "received")
 ASSETS = ["BTC", "ETH", "B1", "XLM", "DOT.x", "ADA_2", "PancakeSwap-LP-CAKE-BNB-2021", "PancakeSwap-LP-CAKE-BNB-2022"]  # two long names that differ only at the very end (LP tokens)
@@ -117,7 +117,13 @@ def materialize(case: Dict[str, Any], folder: str, name: str = "input") -> Tuple
     ini = os.path.join(folder, f"{name}.ini")
     ods = os.path.join(folder, f"{name}.ods")
     order = case.get("sheet_order") or list(case["assets"])
-    files.write_ini(ini, case.get("config_assets") or list(case["assets"]), case["exchanges"], case["holders"], case.get("layout"), case.get("schedule"))
+    general_extra = None
+    if case.get("generators_field"):
+        # the documented optional `generators` field, naming every generator of the country's default set (so "use these" and
+        # "use the default set" mean the same reports)
+        names = [("%s.%s" % (case["country"], r) if r.startswith("tax_report_") else r) for r in COUNTRY_REPORTS[case["country"]]]
+        general_extra = ["generators = " + ", ".join(names)]
+    files.write_ini(ini, case.get("config_assets") or list(case["assets"]), case["exchanges"], case["holders"], case.get("layout"), case.get("schedule"), general_extra=general_extra)
     files.write_ods(ods, [(asset, grids[asset]) for asset in order])
     return ini, ods
 
@@ -136,6 +142,81 @@ def _liquidation_rows(draw: Any, rows: List[Dict[str, Any]]) -> List[Dict[str, A
             result.append({"table": "out", "row": next_row, "ts": model.fmt_ts(us, last.off), "ex": ex, "ho": ho, "type": draw(st.sampled_from(["sell", "gift", "donate"])), "price": "321.5", "out": gen._frac_to_str(flow.final), "fee": "0", "uid": "x"})
             next_row += 1
     return result
+
+
+@st.composite
+def _sparse_years(draw: Any, cfg: gen.GenCfg) -> Dict[str, Any]:
+    """An asset active in a drawn subset of the years 2016..2022 only (a buy in each active year, often a partial disposal or a
+    transfer with fee as well): several such assets in one input have gap years that other assets fill."""
+    accounts = [(e, gen.HOLDER_NAMES[0]) for e in gen.EXCHANGE_NAMES[: max(1, min(2, cfg.max_exchanges))]]
+    years = [y for y in range(2016, 2023) if draw(st.booleans())] or [draw(st.integers(2016, 2022))]
+    rows: List[Dict[str, Any]] = []
+    held = 0
+    n = 0
+    for year in years:
+        us = gen._year_start_us(year) + draw(st.integers(5, 150)) * gen.DAY_US + draw(st.integers(0, 86399)) * gen.US
+        acc = accounts[0]
+        units = draw(st.integers(1, 5000)) * (gen.UNIT // 1000)
+        rows.append({"table": "in", "row": 0, "ts": model.fmt_ts(us, 0), "ex": acc[0], "ho": acc[1], "type": draw(st.sampled_from(["buy", "buy", "interest"])), "price": gen.units_to_str(draw(st.integers(1, 900)) * gen.UNIT), "crypto_in": gen.units_to_str(units), "uid": f"y{n}"})
+        held += units
+        n += 1
+        kind = draw(st.integers(0, 3))
+        us += draw(st.integers(1, 150)) * gen.DAY_US
+        if kind in (1, 2) and held > 2:
+            take = max(1, held // draw(st.sampled_from([2, 3, 10])))
+            rows.append({"table": "out", "row": 0, "ts": model.fmt_ts(us, 0), "ex": acc[0], "ho": acc[1], "type": draw(st.sampled_from(["sell", "gift", "fee"])), "price": gen.units_to_str(draw(st.integers(1, 900)) * gen.UNIT), "out": gen.units_to_str(take), "fee": "0", "uid": f"y{n}"})
+            if rows[-1]["type"] == "fee":
+                rows[-1]["out"], rows[-1]["fee"] = "0", gen.units_to_str(take)
+            held -= take
+            n += 1
+        elif kind == 3 and held > 2 and len(accounts) > 1:
+            take = max(2, held // 4)
+            rows.append({"table": "intra", "row": 0, "ts": model.fmt_ts(us, 0), "from_ex": acc[0], "from_ho": acc[1], "to_ex": acc[0], "to_ho": acc[1], "price": gen.units_to_str(draw(st.integers(1, 900)) * gen.UNIT), "sent": gen.units_to_str(take), "received": gen.units_to_str(take - 1), "uid": f"y{n}"})
+            held -= 1
+            n += 1
+    for i, row in enumerate(rows):
+        row["row"] = cfg.first_row + i
+    return {"asset": cfg.asset, "exchanges": [a[0] for a in accounts], "holders": [accounts[0][1]], "rows": rows}
+
+
+@st.composite
+def _same_second_trades(draw: Any, cfg: gen.GenCfg) -> Dict[str, Any]:
+    """Millisecond-resolution trading: two or three earlier lots, then a disposal and a purchase (with a crypto fee, i.e. one the
+    parser re-creates) inside the same wall-clock second, the purchase a few hundred milliseconds *after* the disposal and priced
+    above / timed after every earlier lot, then one more disposal later.  The purchase must never be visible to the disposal
+    that precedes it, under any method."""
+    acc = (gen.EXCHANGE_NAMES[0], gen.HOLDER_NAMES[0])
+    us = gen._year_start_us(draw(st.integers(2017, 2021))) + draw(st.integers(0, 300)) * gen.DAY_US + draw(st.integers(0, 86398)) * gen.US
+    rows: List[Dict[str, Any]] = []
+    held = 0
+    for i in range(draw(st.integers(2, 3))):
+        units = draw(st.integers(500, 3000)) * (gen.UNIT // 1000)
+        rows.append({"table": "in", "row": 0, "ts": model.fmt_ts(us, 0), "ex": acc[0], "ho": acc[1], "type": "buy", "price": gen.units_to_str(draw(st.integers(100, 300)) * gen.UNIT), "crypto_in": gen.units_to_str(units), "uid": f"l{i}"})
+        held += units
+        us += draw(st.integers(1, 60)) * gen.DAY_US
+    second = us - us % gen.US
+    sell_us = second + draw(st.integers(1, 400)) * 1000
+    buy_us = sell_us + draw(st.integers(1, 500)) * 1000
+    take = max(1, held // draw(st.sampled_from([2, 3, 4])))
+    rows.append({"table": "out", "row": 0, "ts": model.fmt_ts(sell_us, 0), "ex": acc[0], "ho": acc[1], "type": "sell", "price": gen.units_to_str(draw(st.integers(100, 900)) * gen.UNIT), "out": gen.units_to_str(take), "fee": "0", "uid": "sell-a"})
+    held -= take
+    units = draw(st.integers(500, 3000)) * (gen.UNIT // 1000)
+    fee_units = max(1, units // 200)
+    price = draw(st.integers(400, 900)) * gen.UNIT
+    fee_fiat = model.F(gen.units_to_str(fee_units)) * model.F(gen.units_to_str(price))
+    rows.append({"table": "in", "row": 0, "ts": model.fmt_ts(buy_us, 0), "ex": acc[0], "ho": acc[1], "type": "buy", "price": gen.units_to_str(price), "crypto_in": gen.units_to_str(units), "fiat_fee": gen._frac_to_str(fee_fiat), "uid": "buy-b"})
+    in_row_index = len(rows) - 1
+    rows.append({"table": "out", "row": -1, "ts": model.fmt_ts(buy_us, 0), "ex": acc[0], "ho": acc[1], "type": "fee", "price": gen.units_to_str(price), "out": "0", "fee": gen.units_to_str(fee_units), "uid": "buy-b", "artificial_for": None})
+    held += units - fee_units
+    later = buy_us + draw(st.integers(1, 200)) * gen.DAY_US
+    rows.append({"table": "out", "row": 0, "ts": model.fmt_ts(later, 0), "ex": acc[0], "ho": acc[1], "type": draw(st.sampled_from(["sell", "gift"])), "price": gen.units_to_str(draw(st.integers(100, 900)) * gen.UNIT), "out": gen.units_to_str(max(1, held // 2)), "fee": "0", "uid": "sell-c"})
+    number = cfg.first_row
+    for row in rows:
+        if row["row"] == 0:
+            row["row"] = number
+            number += 1
+    rows[in_row_index + 1]["artificial_for"] = rows[in_row_index]["row"]
+    return {"asset": cfg.asset, "exchanges": [acc[0]], "holders": [acc[1]], "rows": rows}
 
 
 @st.composite
@@ -234,7 +315,8 @@ def file_case(
         elif flavour == "disposal_years":
             overrides.update(ops=("out", "out", "out", "in"), tie_prob=0.05)
         cfg = gen.GenCfg(**{**hist.__dict__, **overrides})
-        generated = draw(_dust_on_big_lot(cfg)) if flavour == "dust_on_big_lot" else draw(_tied_fills(cfg)) if flavour == "tied_fills" else draw(gen.history(cfg))
+        special = {"dust_on_big_lot": _dust_on_big_lot, "tied_fills": _tied_fills, "sparse_years": _sparse_years, "same_second_trades": _same_second_trades}
+        generated = draw(special[flavour](cfg)) if flavour in special else draw(gen.history(cfg))
         if flavour == "fully_sold":
             generated["rows"].extend(_liquidation_rows(draw, generated["rows"]))
         raw = to_raw(generated["rows"])
